@@ -56,6 +56,9 @@ def dyadic(x, bits=10):
     return Fraction(round(x * (1 << bits)), 1 << bits)
 
 
+INTRINSIC = []      # intrinsic coordinates of the last flat data set generated (same order as the points)
+
+
 def gen_points(r, kind, N, D, scale=1):
     """N points in R^D (Fractions with power-of-two denominators).  kinds:
        lattice  - integer lattice in [-4,4]^D (ties and exact symmetries are frequent)
@@ -94,8 +97,10 @@ def gen_points(r, kind, N, D, scale=1):
         dd = int(kind[-1])
         base = [Fraction(r.range(-8, 8), 4) for _ in range(D)]
         dirs = [[Fraction(r.range(-4, 4)) for _ in range(D)] for _ in range(dd)]
+        INTRINSIC.clear()
         for _ in range(N):
             c = [Fraction(r.range(-512, 512), 64) for _ in range(dd)]
+            INTRINSIC.append(c)
             pts.append([base[j] + sum(c[a] * dirs[a][j] for a in range(dd)) for j in range(D)])
     elif kind == "grid":
         side = max(2, int(math.ceil(math.sqrt(N))))
